@@ -43,6 +43,20 @@ FIXED_CONDS = [
     AND({"c": "null"}, L("value", "falsy")),
 ]
 
+XOR = lambda a, b: {"c": "xor", "a": a, "b": b}
+_GT = [L("value", "greater_than", i) for i in (0, -1, -2, -3, -4)]
+# several xor nodes / repeated equal leaves: a failure explained only by an inner xor whose operands are both satisfied
+MULTI_XOR = [
+    AND(XOR(_GT[0], _GT[1]), XOR(XOR(_GT[2], _GT[3]), _GT[4])),
+    AND(XOR(XOR(_GT[2], _GT[3]), _GT[4]), XOR(_GT[0], _GT[1])),
+    OR(XOR(_GT[0], _GT[1]), XOR(_GT[2], _GT[2])),
+    XOR(XOR(_GT[0], _GT[1]), XOR(_GT[2], _GT[3])),
+    AND(XOR(_GT[0], _GT[0]), XOR(_GT[0], L("value", "less_than", -100))),
+    AND(OR(_GT[0], _GT[1]), XOR(_GT[0], _GT[1])),
+    XOR(L("value", "truthy"), XOR(L("value", "truthy"), L("value", "truthy"))),
+    AND(XOR(L("value", "is_instance", {"$type": "int"}), L("value", "truthy")), XOR(XOR(L("value", "truthy"), L("value", "falsy")), L("value", "falsy"))),
+]
+
 
 ALIAS_DOC = {"a": {"v": [1, "x"], "w": {"k": "q"}}, "b": {"v": [1, "x"], "w": {"k": "q"}}, "c": [{"k": "q"}, {"k": "q"}, [1, "x"]],
              "d": {"v": [1, "x"]}}
@@ -53,6 +67,10 @@ def strata(tier):
                   [{"p": "prim", "v": "c"}, {"p": "list"}], [{"p": "mol"}, {"p": "mol"}, {"p": "mol"}], [{"p": "map"}]):
         for cond in FIXED_CONDS[:14]:
             yield {"path": PC.mkpath(parts), "cond": cond, "doc": ALIAS_DOC, "alias": True}
+    for cond in MULTI_XOR:
+        for parts, doc in (([{"p": "list"}], [5, -10, 0, -1.5, True]), ([{"p": "map"}], {"a": 5, "b": -10, "c": 0}),
+                           ([{"p": "mol"}, {"p": "mol"}], {"a": [5, -10], "b": {"x": 5, "y": -2.5}}), ([{"p": "prim", "v": 0}], [5, -10])):
+            yield {"path": PC.mkpath(parts), "cond": cond, "doc": doc, "stratum": "multi-xor"}
     i = 0
     for p, doc in PC.systematic_paths(tier):
         i += 1
